@@ -262,6 +262,7 @@ fn compile(
     }).collect_with_recovery().unwrap_or_else(|e| errors.set(e));
 
     lowerer.finish(ctx).unwrap_or_else(|e| errors.set(e));
+    errors.into_result(())?;
 
     let meta = {
         found_meta
